@@ -193,10 +193,6 @@ let refine ifs iters (f : fail) (tag : string) : string =
     let low = List.map lower_b in
     if List.exists (fun t -> low t <> ls && low (name_labels (dotted t)) = ls) targets then "labels:presentation" else tag
   | F05_alive (_, _, ty, inst) -> if ptr_variants dl ty inst then "alive:ptr-variant" else tag
-  | F05_dead (_, _, _, inst, soon, srv_live) ->
-    (* the SRV is still there (an address ran out) and two PTR names point to the instance:
-       resolve_updated_instances reports the removal under one of them only *)
-    if soon then tag else if srv_live && two_types dl inst then "dead:two-names-addr" else tag
   | _ -> tag
 
 let verdict ifs iters (fs : fail list) : string =
